@@ -495,7 +495,13 @@ def finish(pc, props_mod):
         if clause in known_clauses:
             # the case-split clause of a recorded finding: expected to fail
             continue
-        if a['refuted']:
+        if a['refuted'] and all((x.extra or {}).get('default_external') for x in a['refuted']):
+            # every counter-model rests on an exception invented by the default contract of an unmodelled
+            # external function: the code needs a contract for it, nothing is known about the property
+            it = a['refuted'][0]
+            undecided.append(('clause %s refuted only through the default contract of unmodelled external %s (may raise any Exception): needs a contract, not a counterexample'
+                              % (clause, it.extra['default_external']), it.lineno, it.func))
+        elif a['refuted']:
             it = a['refuted'][0]
             rep = {'property': pid, 'obligation': clause, 'kind': it.kind, 'function': it.func, 'line': it.lineno,
                    'note': it.note, 'solver': it.by, 'solver_verdict': 'sat (negated obligation has a model)',
